@@ -68,6 +68,23 @@ def rsp_real_binary(ctx, ninja):
             seen = open(d + '/%s.seen' % o).read() if os.path.exists(d + '/%s.seen' % o) else None
             if seen != e: bad.append('rspfile of %s held %r at command start, expected %r' % (o, seen, e))
             if os.path.exists(d + '/%s.rsp' % o): bad.append('rspfile of %s not removed after the command succeeded' % o)
+        # boundary: the content evaluates to the EMPTY string (e.g. $in_newline of a statement with implicit inputs only) after a failed
+        # run left the file behind with the old list: the command must find an empty response file, not the stale one and not none
+        def manifest3(ins, code):
+            return ('rule r\n  command = cp $out.rsp $out.seen && exit %d\n  rspfile = $out.rsp\n  rspfile_content = $in_newline\nbuild c: r %s\n' % (code, ins))
+        for first in (True, False):
+            for f in ('c.rsp', 'c.seen', 'c'):
+                if os.path.exists(d + '/' + f): os.unlink(d + '/' + f)
+            if first:
+                open(d + '/build.ninja', 'w').write(manifest3('in2 in$ 1', 1))
+                subprocess.run([ninja, '-C', d], stdout=subprocess.PIPE, stderr=subprocess.STDOUT, timeout=60)
+                if not os.path.exists(d + '/c.rsp'): bad.append('rspfile not kept after a failed command ($in_newline)')
+            open(d + '/build.ninja', 'w').write(manifest3('| in2', 0))
+            p = subprocess.run([ninja, '-C', d], stdout=subprocess.PIPE, stderr=subprocess.STDOUT, timeout=60)
+            seen = open(d + '/c.seen').read() if os.path.exists(d + '/c.seen') else None
+            if seen != '':
+                bad.append('empty rspfile_content%s: the command found %s at start, expected an empty response file (ninja exit %d)'
+                           % (' after a failed run left the old file' if first else '', 'no response file' if seen is None else repr(seen[:80]), p.returncode))
     finally:
         shutil.rmtree(d, ignore_errors=True)
     return bad
